@@ -20,6 +20,10 @@
   * `Ext`, `Sim.ext`, `advance_extends_subtree` (MCTS / POMCP): simulations only extend the tree, so after
     `sampleAction(a, key, h)` with any number of iterations every node of the promoted subtree is still there with counts at
     least as large, its old particles a prefix of the new list and its old returns still averaged in.
+  * `RUp`, `rsim_up`, `up_is_N_times_V` (repaired leaf branch, fixes/C19-4): the datapoints a node has passed upwards add up to
+    `N · V` after every history; `leaf_visit_breaks_sum_counterexample` for the source as first read.
+  * `advance_without_tree_restarts`, `first_advance_is_fresh`, `advance_defined_partial`, `…_counterexample`,
+    `…_as_extracted` (fixes/C19-3): the advancing overload on a planner without a tree.
   * `rup_replaces_value`: the datapoint a node passes upwards is the one that turns a mean of `N - 1` copies of the old
     node value into `N` copies of the new one.
 -/
@@ -812,6 +816,247 @@ theorem rup_replaces_value (m : Mdl) (k : Nat) (t : RTree) (p : Path) (a depth :
     have : t.nN p = (t.nN p - 1) + 1 := by omega
     exact_mod_cast this
   rw [hc]; ring
+
+/-! ### The replacement datapoint is exact: "sum of the datapoints a node has passed upwards = N · V" (defect C19-4)
+
+  Full-strength statement (every history of public calls, both knowledge measures): *below the root, the datapoints a
+  belief node has passed to its parent add up to `N · V`* — which is what makes `(N - 1)·(V - oldV) + V` the datapoint that
+  replaces `N - 1` copies of the old value in the parent's mean, and an action value the visit-weighted mean of its
+  children's values.  It holds for the repaired leaf branch (`rLeafV = true`, fixes/C19-4).  In the source as first read a
+  leaf visit passes its datapoint upwards and counts in `N` but leaves `V` alone: the statement fails after the first
+  non-zero leaf datapoint (`leaf_visit_breaks_sum_counterexample`), and the next descent adds `N` copies of the new value on top. -/
+
+/-- `e q = 1` while a `simulate` call on `q` has done `b.N++` but not yet computed the node's new value -/
+def RUp (e : Path → Nat) (t : RTree) : Prop :=
+  ∀ q, q ≠ [] → t.up q = (((t.nN q : Nat) : Rat) - ((e q : Nat) : Rat)) * t.v q
+
+theorem rdown_up_fields (m : Mdl) (t : RTree) (p : Path) (st : Step) :
+    (rdown m t p st).1.nN = upd t.nN p (t.nN p + 1) ∧ (rdown m t p st).1.v = t.v ∧ (rdown m t p st).1.up = t.up := by
+  unfold rdown RTree.updBK
+  simp only
+  split <;> exact ⟨rfl, rfl, rfl⟩
+
+theorem ralloc_up {t t1 : RTree} {p : Path} {n : Nat} (h : t.alloc p n = some t1) :
+    t1.nN = t.nN ∧ t1.v = t.v ∧ t1.up = t.up := by
+  unfold RTree.alloc at h
+  split at h
+  · simp at h; subst h; exact ⟨rfl, rfl, rfl⟩
+  · split at h
+    · simp at h; subst h; exact ⟨rfl, rfl, rfl⟩
+    · simp at h
+
+theorem rup_up_fields (m : Mdl) (k : Nat) (t : RTree) (p : Path) (a depth : Nat) (imm : Rat) :
+    (rup m k t p a depth imm).1.nN = t.nN ∧
+    (depth = 0 → (rup m k t p a depth imm).1.v = t.v ∧ (rup m k t p a depth imm).1.up = t.up) ∧
+    (depth ≠ 0 → ∃ newV : Rat, (rup m k t p a depth imm).1.v = upd t.v p newV ∧
+      (rup m k t p a depth imm).1.up = upd t.up p (t.up p + (((t.nN p - 1 : Nat) : Rat) * (newV - t.v p) + newV))) := by
+  unfold rup
+  dsimp only
+  split
+  · rename_i h0
+    exact ⟨rfl, fun _ => ⟨rfl, rfl⟩, fun h => absurd h0 h⟩
+  · rename_i h0
+    exact ⟨rfl, fun h => absurd h h0, fun _ => ⟨_, rfl, rfl⟩⟩
+
+theorem RUp.of_eq {e : Path → Nat} {t t1 : RTree} (h : RUp e t) (e1 : t1.nN = t.nN) (e2 : t1.v = t.v) (e3 : t1.up = t.up) : RUp e t1 := by
+  intro q hq; rw [e1, e2, e3]; exact h q hq
+
+/-- a leaf visit in the repaired form keeps the sum: `up + d = (N + 1) · (V + (d - V)/(N + 1))` -/
+theorem RUp.rleaf {e : Path → Nat} {t : RTree} {child : Path} (imm : Rat) (h : RUp e t) (he : e child = 0) :
+    RUp e (rleaf t child true imm) := by
+  intro q hq
+  show upd t.up child (t.up child + imm) q
+    = (((upd t.nN child (t.nN child + 1) q : Nat) : Rat) - ((e q : Nat) : Rat)) *
+      upd t.v child (t.v child + (imm - t.v child) / ((t.nN child + 1 : Nat) : Rat)) q
+  by_cases hqc : q = child
+  · subst hqc
+    simp only [upd, if_true]
+    have h1 := h q hq
+    rw [h1, he]
+    have hne : ((t.nN q + 1 : Nat) : Rat) ≠ 0 := by
+      have : (t.nN q + 1 : Nat) ≠ 0 := Nat.succ_ne_zero _
+      exact_mod_cast this
+    have key : ∀ (x v i : Rat), x ≠ 0 → (x - 1) * v + i = x * (v + (i - v) / x) := by
+      intro x v i hx; field_simp; ring
+    have := key ((t.nN q + 1 : Nat) : Rat) (t.v q) imm hne
+    push_cast at this ⊢
+    linarith
+  · simp only [upd, hqc, if_false]; exact h q hq
+
+/-- **rPOMCP (repaired leaf branch): every `simulate` call keeps "datapoints passed upwards = N · V"** on every node
+    below the root that has no open frame -/
+theorem rsim_up (m : Mdl) (hm : m.rLeafV = true) (H k : Nat) : ∀ (fuel : Nat) (t : RTree) (p : Path) (s depth : Nat) (log : List Step)
+    (t' : RTree) (r : Rat) (rest : List Step),
+    rsim m H k fuel t p s depth log = some (t', r, rest) → (p = [] ↔ depth = 0) →
+    ∀ e : Path → Nat, (∀ q, p <+: q → e q = 0) → RUp e t → RUp e t' := by
+  intro fuel
+  induction fuel with
+  | zero => intro t p s depth log t' r rest h; simp [rsim] at h
+  | succ fuel ih =>
+    intro t p s depth log t' r rest h hpd e he hI
+    cases log with
+    | nil => simp [rsim] at h
+    | cons st log =>
+      simp only [rsim] at h
+      split at h
+      · obtain ⟨d1, d2, d3⟩ := rdown_up_fields m t p st
+        have hcp : p ++ [(st.a, st.o)] ≠ p := fun h => ne_append_singleton p _ h.symm
+        -- after `b.N++` the frame of `p` is open
+        have hd : RUp (upd e p 1) (rdown m t p st).1 := by
+          intro q hq
+          rw [d1, d2, d3]
+          by_cases hqp : q = p
+          · subst hqp
+            simp only [upd, if_true]
+            rw [hI q hq, he q (List.prefix_refl _)]
+            push_cast; ring
+          · simp only [upd, hqp, if_false]; exact hI q hq
+        have hec : ∀ q, (p ++ [(st.a, st.o)]) <+: q → upd e p 1 q = 0 := by
+          intro q hq
+          have hqp : q ≠ p := by
+            intro hh; subst hh
+            have := hq.length_le; simp at this
+          simp only [upd, hqp, if_false]
+          exact he q (List.IsPrefix.trans (List.prefix_append _ _) hq)
+        -- closing the frame of `p`
+        have hclose : ∀ (t3 : RTree) (imm : Rat), RUp (upd e p 1) t3 → 0 < t3.nN p → RUp e (rup m k t3 p st.a depth imm).1 := by
+          intro t3 imm h3 hN
+          obtain ⟨u1, u2, u3⟩ := rup_up_fields m k t3 p st.a depth imm
+          intro q hq
+          by_cases h0 : depth = 0
+          · have hp0 : p = [] := hpd.mpr h0
+            obtain ⟨v2, v3⟩ := u2 h0
+            rw [u1, v2, v3]
+            have hqp : q ≠ p := by rw [hp0]; exact hq
+            have := h3 q hq
+            simpa [upd, hqp] using this
+          · obtain ⟨newV, v2, v3⟩ := u3 h0
+            rw [u1, v2, v3]
+            by_cases hqp : q = p
+            · subst hqp
+              simp only [upd, if_true]
+              have h4 := h3 q hq
+              simp only [upd, if_true] at h4
+              have hc : ((t3.nN q - 1 : Nat) : Rat) = ((t3.nN q : Nat) : Rat) - 1 := Nat.cast_pred hN
+              rw [h4, hc, he q (List.prefix_refl _)]
+              push_cast; ring
+            · simp only [upd, hqp, if_false]
+              have := h3 q hq
+              simpa [upd, hqp] using this
+        split at h
+        · simp at h
+        · rename_i t3 imm log' hr
+          simp at h
+          obtain ⟨rfl, rfl, rfl⟩ := h
+          split at hr
+          · rename_i hdeep
+            simp only [Bool.and_eq_true, decide_eq_true_eq] at hdeep
+            split at hr
+            · simp at hr
+            · rename_i t2 hal
+              obtain ⟨a1, a2, a3⟩ := ralloc_up hal
+              have hpd' : (p ++ [(st.a, st.o)] = [] ↔ depth + 1 = 0) := by simp
+              have h3 := ih _ _ _ _ _ _ _ _ hr hpd' (upd e p 1) hec (hd.of_eq a1 a2 a3)
+              obtain ⟨_, _, _, _, _, hNf⟩ := rsim_spec m H k _ _ _ _ _ _ _ _ _ hdeep.1.1 hr
+              have hnp : ¬ (p ++ [(st.a, st.o)]) <+: p := by
+                intro hk; have := hk.length_le; simp at this
+              have hN : 0 < t3.nN p := by rw [hNf p hnp, a1, d1]; simp [upd]
+              exact hclose t3 imm h3 hN
+          · simp at hr
+            obtain ⟨rfl, _, rfl⟩ := hr
+            have h3 : RUp (upd e p 1) (rleaf (rdown m t p st).1 (p ++ [(st.a, st.o)]) m.rLeafV
+                (if depth + 1 < H then 0 else (rdown m t p st).1.km (p ++ [(st.a, st.o)]))) := by
+              rw [hm]; exact RUp.rleaf _ hd (hec _ (List.prefix_refl _))
+            refine hclose _ _ h3 ?_
+            show 0 < upd (rdown m t p st).1.nN (p ++ [(st.a, st.o)]) _ p
+            simp only [upd, hcp.symm, if_false]
+            rw [d1]; simp [upd]
+      · simp at h
+
+theorem rrunSims_up (m : Mdl) (hm : m.rLeafV = true) (H k : Nat) : ∀ (n : Nat) (t : RTree) (log : List Step) (t' : RTree) (rest : List Step),
+    rrunSims m H k n t log = some (t', rest) → RUp Z t → RUp Z t' := by
+  intro n
+  induction n with
+  | zero => intro t log t' rest h hI; simp [rrunSims] at h; obtain ⟨rfl, _⟩ := h; exact hI
+  | succ n ih =>
+    intro t log t' rest h hI
+    cases log with
+    | nil => simp [rrunSims] at h
+    | cons st log =>
+      simp only [rrunSims] at h
+      split at h
+      · split at h
+        · simp at h
+        · rename_i t1 r log' hsim
+          exact ih _ _ _ _ h (rsim_up m hm H k _ _ _ _ _ _ _ _ _ hsim (by simp) Z (fun _ _ => rfl) hI)
+      · simp at h
+
+theorem RUp.fresh (support : List Nat) (nA : Nat) : RUp Z (RTree.fresh support nA) := by
+  intro q _; simp [RTree.fresh, Z]
+
+theorem RUp.reroot {t : RTree} (h : RUp Z t) (k : Key) : RUp Z (t.reroot k) := fun q _ => h (k :: q) (by simp)
+
+theorem rprepare_up {t t0 : RTree} {op : Op} {H iters : Nat} (h : RUp Z t) (hp : rprepare t op = some (t0, H, iters)) : RUp Z t0 := by
+  cases op with
+  | fresh parts nA H' iters' =>
+    simp [rprepare] at hp
+    obtain ⟨rfl, _, _⟩ := hp
+    exact RUp.fresh parts nA
+  | adv a o parts nA H' iters' =>
+    simp only [rprepare] at hp
+    split at hp
+    · split at hp
+      · cases hal : (t.reroot (a, o)).alloc [] nA with
+        | none => simp [hal] at hp
+        | some t1 =>
+          simp [hal] at hp
+          obtain ⟨rfl, _, _⟩ := hp
+          obtain ⟨a1, a2, a3⟩ := ralloc_up hal
+          exact (h.reroot (a, o)).of_eq a1 a2 a3
+      · simp at hp
+        obtain ⟨rfl, _, _⟩ := hp
+        exact RUp.fresh parts nA
+    · simp at hp
+
+/-- **up_is_N_times_V** (repaired leaf branch, any history of public calls, both knowledge measures): below the root, the
+    datapoints a belief node has passed to its parent add up to exactly `N · V`. -/
+theorem up_is_N_times_V {m : Mdl} {k : Nat} {t : RTree} (hm : m.rLeafV = true) (h : RReach m k t) (q : Path) (hq : q ≠ []) :
+    t.up q = ((t.nN q : Nat) : Rat) * t.v q := by
+  have hI : RUp Z t := by
+    induction h with
+    | init nA => exact RUp.fresh [] nA
+    | call t t' op log rest _ hc ih =>
+      unfold rcall at hc
+      split at hc
+      · simp at hc
+      · rename_i t0 H iters hp
+        have h0 := rprepare_up ih hp
+        split at hc
+        · simp at hc; obtain ⟨rfl, _⟩ := hc; exact h0
+        · split at hc
+          · simp at hc
+          · rename_i t1 rest' hr
+            simp at hc
+            obtain ⟨rfl, _⟩ := hc
+            have h1 := rrunSims_up m hm H k _ _ _ _ _ hr h0
+            intro q hq
+            have := h1 q hq
+            simpa [upd, hq] using this
+  have := hI q hq
+  simpa [Z] using this
+
+/-- **counterexample** (the model shares the defect): in the source as first read a leaf visit with a non-zero datapoint
+    (the knowledge measure at the last level) breaks "passed upwards = N · V" on a node whose value is still 0 — the
+    parent now holds a datapoint the node's value does not account for, and the next descent through the node adds
+    `N` copies of its new value on top of it. -/
+theorem leaf_visit_breaks_sum_counterexample (t : RTree) (c : Path) (imm : Rat) (himm : imm ≠ 0)
+    (h0 : t.up c = ((t.nN c : Nat) : Rat) * t.v c) (hv : t.v c = 0) :
+    (rleaf t c false imm).up c ≠ (((rleaf t c false imm).nN c : Nat) : Rat) * (rleaf t c false imm).v c := by
+  show upd t.up c (t.up c + imm) c ≠ ((upd t.nN c (t.nN c + 1) c : Nat) : Rat) * upd t.v c (t.v c) c
+  simp only [upd, if_true]
+  rw [h0, hv]
+  simpa using himm
+
 
 /-! hypotheses are satisfiable: a concrete rPOMCP history (fresh call with two simulations at horizon 2) -/
 def exR : Mdl := { pomcp := true, gamma := 1/2, rollOff := -1, rollGuard := true, bonus := fun _ _ => .nan, uctSlack := none,
